@@ -270,7 +270,13 @@ pub fn gen_world(rng: &mut Rng, prop: &str) -> WorldCfg {
     }
     let trader_balance = (qmax / 2).max(5000 * d);
     let if_balance = match prop {
-        "C07" => trader_balance * 50,
+        // mostly ample (the probe tops the fund up in its fork anyway); sometimes empty or nearly so, so that the
+        // withdrawals of the main history (funding, shortfalls) meet a fund that cannot pay
+        "C07" => match rng.below(5) {
+            0 => 0,
+            1 => d,
+            _ => trader_balance * 50,
+        },
         _ => match rng.below(10) {
             0 => 0,
             1 => d,
@@ -298,7 +304,7 @@ pub fn gen_world(rng: &mut Rng, prop: &str) -> WorldCfg {
         }
     };
     let n_vamms_hint = vamms.len();
-    let prefix_vamms = kind == WorldKind::Standard && n_vamms_hint >= 2 && matches!(prop, "C10" | "C03" | "C16") && rng.chance(1, 4);
+    let prefix_vamms = kind == WorldKind::Standard && n_vamms_hint >= 2 && matches!(prop, "C10" | "C03" | "C16" | "C02") && rng.chance(1, 4);
     WorldCfg {
         kind,
         coll: coll.clone(),
